@@ -16,14 +16,18 @@
 #endif
 #define HG(sym) FL(ncmpio_header_get, sym)
 unsigned long long g_vals[8]; int g_vi;      /* ghost: the values the header delivers, in order */
-int g_new_calls, g_free_calls; NC_var *g_newvar; NC_var *g_var_ptr; char *g_name_ptr, *g_null_ptr;
+int g_new_calls, g_free_calls; _Bool g_new_null; NC_var *g_var_ptr; char *g_name_ptr, *g_null_ptr;
+static NC_var g_var_obj; static int g_dimids[NDIMS_C ? NDIMS_C : 1];   /* the object ncmpio_new_NC_var hands out */
+#define VAL(i) (FMTVER < 5 ? (unsigned long long)(unsigned)g_vals[i] : g_vals[i])
 int G;
-int IN_f_ndims;
+int IN_f_ndims; _Bool g_dec_failed;   /* ghost: some scalar decoder call reported a failure (read error) */
 
 #define NEXTVAL_CONTRACT \
 __CPROVER_requires(g_vi >= 0 && g_vi < 7) \
-__CPROVER_assigns(*xp, g_vi) \
-__CPROVER_ensures(g_vi == __CPROVER_old(g_vi) + 1)
+__CPROVER_assigns(*xp, g_vi, g_dec_failed) \
+/* a scalar decoder fails only through hdr_fetch (an I/O error code), never with the non-fatal NC_ENULLPAD */ \
+__CPROVER_ensures(__CPROVER_return_value <= 0 && __CPROVER_return_value != NC_ENULLPAD) \
+__CPROVER_ensures(g_vi == __CPROVER_old(g_vi) + 1 && g_dec_failed == (__CPROVER_old(g_dec_failed) || __CPROVER_return_value != NC_NOERR))
 int HG(hdr_get_uint32)(bufferinfo *gbp, uint *xp) NEXTVAL_CONTRACT
 __CPROVER_ensures(IMPLIES(__CPROVER_return_value == NC_NOERR, *xp == (uint)g_vals[__CPROVER_old(g_vi)]));
 int HG(hdr_get_uint64)(bufferinfo *gbp, uint64 *xp) NEXTVAL_CONTRACT
@@ -37,37 +41,40 @@ __CPROVER_ensures(__CPROVER_return_value == NC_NOERR ==> __CPROVER_pointer_equal
 __CPROVER_ensures(__CPROVER_return_value != NC_NOERR ==> __CPROVER_pointer_equals(*namep, g_null_ptr))
 __CPROVER_ensures(*name_len <= 3);
 int HG(hdr_get_NC_attrarray)(bufferinfo *gbp, NC_attrarray *ncap)
-__CPROVER_assigns(__CPROVER_object_whole(ncap)) __CPROVER_ensures(1);
+__CPROVER_assigns(*ncap) __CPROVER_ensures(1);
 /* allocation of the variable object: dimids array sized by the ndims it is given */
 NC_var *ncmpio_new_NC_var(char *name, size_t name_len, int ndims)
 __CPROVER_requires(ndims >= 0 && ndims <= NC_MAX_VAR_DIMS) /*@allocation_only_after_the_limit_check*/
 __CPROVER_requires(ndims == NDIMS_C && g_new_calls == 0)
-__CPROVER_assigns(g_new_calls, g_newvar)
-__CPROVER_ensures(g_new_calls == 1 && __CPROVER_return_value == g_newvar)
+__CPROVER_assigns(g_new_calls, g_new_null)
+__CPROVER_ensures(g_new_calls == 1)
 /* the object is provided by the harness (g_var_obj with a dimids array of exactly NDIMS_C entries) */
-__CPROVER_ensures(__CPROVER_return_value == NULL || __CPROVER_pointer_equals(__CPROVER_return_value, g_var_ptr))
+__CPROVER_ensures(g_new_null ? __CPROVER_pointer_equals(__CPROVER_return_value, g_null_ptr) : __CPROVER_pointer_equals(__CPROVER_return_value, g_var_ptr))
 ;
 void ncmpio_free_NC_var(NC_var *varp)
-__CPROVER_requires(varp != NULL && varp == g_newvar)
+__CPROVER_requires(varp != NULL && varp == g_var_ptr && !g_new_null) /*@only_the_allocated_variable_is_released*/
 __CPROVER_assigns(g_free_calls) __CPROVER_ensures(g_free_calls == __CPROVER_old(g_free_calls) + 1);
 int ncmpii_xlen_nc_type(nc_type xtype, int *size) __CPROVER_assigns(*size) __CPROVER_ensures(1);
 
 int HG(hdr_get_NC_var)(bufferinfo *gbp, NC_var **varpp, int f_ndims)
-__CPROVER_requires(gbp->version == FMTVER && f_ndims >= 0 && f_ndims <= NC_MAX_DIMS && f_ndims == IN_f_ndims && g_vi == 0 && g_new_calls == 0 && g_free_calls == 0 && G >= 0 && G < (NDIMS_C ? NDIMS_C : 1))
+__CPROVER_requires(gbp->version == FMTVER && f_ndims >= 0 && f_ndims <= NC_MAX_DIMS && f_ndims == IN_f_ndims && g_vi == 0 && g_new_calls == 0 && g_free_calls == 0 && !g_dec_failed && G >= 0 && G < (NDIMS_C ? NDIMS_C : 1))
+/* instance: the header announces NDIMS_C dimensions, or more than the limit */
+__CPROVER_requires(VAL(0) == NDIMS_C || VAL(0) > NC_MAX_VAR_DIMS)
 __CPROVER_frees(g_name_ptr)
-__CPROVER_assigns(*varpp, g_vi, g_new_calls, g_newvar, g_free_calls, __CPROVER_object_whole(g_var_ptr), __CPROVER_object_whole(g_var_ptr->dimids))
-__CPROVER_ensures(IMPLIES(g_vals[0] > NC_MAX_VAR_DIMS, __CPROVER_return_value != NC_NOERR && g_new_calls == 0)) /*@too_many_dimensions_rejected_before_allocation*/
-__CPROVER_ensures(IMPLIES(__CPROVER_return_value == NC_NOERR || __CPROVER_return_value == NC_ENULLPAD, *varpp == g_newvar && g_newvar != NULL && g_free_calls == 0 &&
-      (*varpp)->ndims == NDIMS_C && IMPLIES(NDIMS_C > 0, (*varpp)->dimids[G] >= 0 && (*varpp)->dimids[G] < f_ndims))) /*@accepted_variable_names_only_existing_dimensions*/
-__CPROVER_ensures(IMPLIES(NDIMS_C > 0 && g_vals[1 + G] >= (unsigned long long)IN_f_ndims && g_vals[0] == NDIMS_C && (G == 0 || g_vals[1] < (unsigned long long)IN_f_ndims),
+__CPROVER_assigns(*varpp, g_vi, g_dec_failed, g_new_calls, g_new_null, g_free_calls, __CPROVER_object_whole(&g_var_obj), __CPROVER_object_whole(g_dimids))
+__CPROVER_ensures(IMPLIES(g_dec_failed, __CPROVER_return_value != NC_NOERR && __CPROVER_return_value != NC_ENULLPAD)) /*@C11_failed_header_read_never_becomes_success*/
+__CPROVER_ensures(IMPLIES(VAL(0) > NC_MAX_VAR_DIMS, __CPROVER_return_value != NC_NOERR && g_new_calls == 0)) /*@too_many_dimensions_rejected_before_allocation*/
+__CPROVER_ensures(IMPLIES(__CPROVER_return_value == NC_NOERR || __CPROVER_return_value == NC_ENULLPAD, *varpp == &g_var_obj && !g_new_null && g_new_calls == 1 && g_free_calls == 0 &&
+      g_var_obj.ndims == NDIMS_C && g_var_obj.dimids == g_dimids && IMPLIES(NDIMS_C > 0, g_dimids[G] >= 0 && g_dimids[G] < f_ndims && g_dimids[G] == (int)VAL(1 + G)))) /*@accepted_variable_names_only_existing_dimensions*/
+__CPROVER_ensures(IMPLIES(NDIMS_C > 0 && VAL(1 + G) >= (unsigned long long)IN_f_ndims && VAL(0) == NDIMS_C && (G == 0 || VAL(1) < (unsigned long long)IN_f_ndims),
       __CPROVER_return_value != NC_NOERR && __CPROVER_return_value != NC_ENULLPAD)) /*@dimension_id_out_of_range_rejected*/
-__CPROVER_ensures(IMPLIES(__CPROVER_return_value != NC_NOERR && __CPROVER_return_value != NC_ENULLPAD && g_newvar != NULL && g_new_calls == 1, g_free_calls == 1)) /*@C17_rejected_variable_released*/
+__CPROVER_ensures(IMPLIES(__CPROVER_return_value != NC_NOERR && __CPROVER_return_value != NC_ENULLPAD && !g_new_null && g_new_calls == 1, g_free_calls == 1)) /*@C17_rejected_variable_released*/
 ;
 
-static bufferinfo gb; static NC_var g_var_obj; static int g_dimids[NDIMS_C ? NDIMS_C : 1];
+static bufferinfo gb;
 void harness(void)
 {
-    G = nondet_int(); IN_f_ndims = nondet_int(); g_vi = 0; g_new_calls = 0; g_free_calls = 0; g_newvar = NULL;
+    G = nondet_int(); IN_f_ndims = nondet_int(); g_vi = 0; g_new_calls = 0; g_free_calls = 0; g_new_null = 0; g_dec_failed = 0;
     for (int i = 0; i < 8; i++) g_vals[i] = nondet_ull();
     g_name_ptr = malloc(4); g_null_ptr = NULL; gb.version = FMTVER; g_var_obj.ndims = NDIMS_C; g_var_obj.dimids = g_dimids; g_var_ptr = &g_var_obj;
     NC_var *v = NULL;
